@@ -69,7 +69,17 @@ def gen_cases(rng, tier):
         for _ in range(2 if tier == 'quick' else 10):
             mk(cc.gen_dataset(rng, present={'sensors', 'rigs', 'trajectories', 'records_camera'}, size=3,
                               nested_rigs=True, rig_order=order))
-    n = 60 if tier == 'quick' else 900
+    # two or three devices of the same kind recording at the same timestamps, for every records kind
+    for p in [q for q in cc.TABLE_PARTS if q.startswith('records_')] + ['trajectories']:
+        mk(cc.gen_dataset(rng, present={'sensors', p}, size=3, multi_device=True))
+    mk(cc.gen_dataset(rng, present=set(cc.ALL_PARTS), size=2, multi_device=True))
+    # the same in-memory objects saved, edited through the public API (rescale, replace a pose, edit a record, add a
+    # sensor), saved again: the second save / load is judged against the content held in memory at that moment
+    for i in range(8 if tier == 'quick' else 80):
+        pres = {'sensors', 'rigs', 'trajectories'} | ({p for p in cc.ALL_PARTS if rng.random() < 0.4} if i % 2 else set())
+        d = cc.gen_dataset(rng, present=pres, size=3, nested_rigs=(i % 4 == 0))
+        cases.append({'kind': 'mutate', 'data': d, 'mutations': cc.gen_mutations(rng, d), '_origin': 'gen'})
+    n = 50 if tier == 'quick' else 900
     for _ in range(n):
         mk(cc.gen_dataset(rng))
     # histories
@@ -114,6 +124,8 @@ def gen_cases(rng, tier):
 def run_impl(case, ctx):
     if case['kind'] == 'history':
         return {'steps': cc.run_history(case['steps'], ctx['tmp'], kv.case_hash(case['steps'])[:8])}
+    if case['kind'] == 'mutate':
+        return cc.run_data_case(case['data'], ctx['tmp'], mutations=case['mutations'])
     return cc.run_data_case(case['data'], ctx['tmp'])
 
 
@@ -143,6 +155,9 @@ def oracle(case, obs):
             elif st['op'] == 'probe' and (o['exc'] or o['version'] is not None):
                 return 'version lookup on a missing directory: ' + str(o['exc'] or o['version'])
         return None
+    if case['kind'] == 'mutate':
+        sig = _oracle_data(obs.get('current') or case['data'], obs)
+        return ('after save, ' + '+'.join(m['op'] for m in case['mutations']) + ', save again: ' + sig) if sig else None
     return _oracle_data(case['data'], obs)
 
 
@@ -184,6 +199,8 @@ def _oracle_data(d, obs):
 def _data_steps(case, obs):
     if case['kind'] == 'history':
         return [(st['data'], o) for st, o in zip(case['steps'], obs['steps']) if st['op'] == 'save_load']
+    if case['kind'] == 'mutate':
+        return [(obs.get('current') or case['data'], obs)]
     return [(case['data'], obs)]
 
 
@@ -217,6 +234,8 @@ def classify(case, obs):
     if case['kind'] == 'history':
         bad = any(o.get('load_exc') or o.get('save_exc') or o.get('exc') for o in obs['steps'])
         return 'history/' + '+'.join(st['op'] for st in case['steps']) + ('/exc' if bad else '/ok')
+    if case['kind'] == 'mutate':
+        return 'mutate/' + '+'.join(sorted(m['op'] for m in case['mutations']))
     d = case['data']
     npart = sum(1 for p in cc.ALL_PARTS if d[p] is not None)
     n = _nrows(d)
@@ -243,6 +262,12 @@ def shrink(case):
     if case['kind'] == 'history':
         # not shrunk: once a step has failed the process itself may carry the stale state (a cache, a mutated
         # default), so a shorter history that "still fails" here need not fail when replayed in a fresh process
+        return
+    if case['kind'] == 'mutate':
+        m = case['mutations']
+        for i in range(len(m)):
+            if len(m) > 1:
+                yield {'kind': 'mutate', 'data': case['data'], 'mutations': m[:i] + m[i + 1:]}
         return
     d = case['data']
     for p in cc.ALL_PARTS:
